@@ -170,3 +170,76 @@ Proof. exact ex_and_lemma. Qed.
 Example fold_int_by_float_stays_float :
   fold prim_fops re_none pf_fmt_v (EBin 2 OMul (ENum 0 "3") (EFloat 4 "0.5")) = EFloat 0 "1.5".
 Proof. exact ex_d14_lemma. Qed.
+
+(* ================================================================== statement level (agent N4)
+   The folder works IN PLACE on a checked statement and a field reference points to the field
+   OBJECT: the tree a plan executes for the checked tree T is FoldStmt.exec_tree T =
+   relink (fold T) -- the folder's result in which every reference carries the state
+   (FoldStmt.in_place: operands folded, root kept) the folder left the referenced field in.
+   [exec_tree_preserves]: fold_preserves lifted through the references.  Premises beyond those
+   of fold_preserves: [refs_good k v (fold T)] -- every field definition d reachable through a
+   reference of the folded tree is typed (wt d, what the checker guarantees) and the
+   re-associations the folder performed on that field object are exact on the pair
+   (in_place_exact: reassoc_exact's analogue for the object state; no demand for integer and
+   text chains). *)
+From KV Require Import Model.FoldStmt Proofs.FoldTextProofs.
+
+Theorem exec_tree_preserves :
+  forall (fo : fops) (re_match : bytes -> bytes -> res bool) (fmt_v : F fo -> string),
+  (forall f, f_parse fo (fmt_v f) = PF_ok f) ->
+  forall (T : expr) (k v : bytes) (x : value fo),
+  wt T = true ->
+  reassoc_exact fo re_match fmt_v T k v ->
+  refs_good fo re_match fmt_v k v (fold fo re_match fmt_v T) ->
+  eval fo re_match k v T = Ok x ->
+  exists x', eval fo re_match k v (exec_tree fo re_match fmt_v T) = Ok x' /\
+             canon_of fo x' = canon_of fo x /\ kind_of fo x' = kind_of fo x.
+Proof. exact exec_tree_preserves_lemma. Qed.
+Print Assumptions exec_tree_preserves.
+
+(* the WHERE verdict of the tree the filter executes *)
+Theorem exec_tree_where_same_rows :
+  forall (fo : fops) (re_match : bytes -> bytes -> res bool) (fmt_v : F fo -> string),
+  (forall f, f_parse fo (fmt_v f) = PF_ok f) ->
+  forall (T : expr) (k v : bytes) (b : bool),
+  wt T = true -> reassoc_exact fo re_match fmt_v T k v ->
+  refs_good fo re_match fmt_v k v (fold fo re_match fmt_v T) ->
+  filter_row fo re_match k v T = Ok b ->
+  filter_row fo re_match k v (exec_tree fo re_match fmt_v T) = Ok b.
+Proof. exact exec_tree_filter_lemma. Qed.
+Print Assumptions exec_tree_where_same_rows.
+
+(* the static result type (FieldTypes) and the typing facts survive *)
+Theorem exec_tree_keeps_type :
+  forall (fo : fops) (re_match : bytes -> bytes -> res bool) (fmt_v : F fo -> string),
+  (forall f, f_parse fo (fmt_v f) = PF_ok f) ->
+  forall T, wt T = true -> refs_wt (fold fo re_match fmt_v T) ->
+  rtype (exec_tree fo re_match fmt_v T) = rtype T /\ wt (exec_tree fo re_match fmt_v T) = true.
+Proof. exact exec_tree_static_lemma. Qed.
+Print Assumptions exec_tree_keeps_type.
+
+(* the state of a referenced field object evaluates to EXACTLY the value of its definition *)
+Theorem in_place_preserves :
+  forall (fo : fops) (re_match : bytes -> bytes -> res bool) (fmt_v : F fo -> string),
+  (forall f, f_parse fo (fmt_v f) = PF_ok f) ->
+  forall d, wt d = true ->
+  rtype (in_place fo re_match fmt_v d) = rtype d /\ wt (in_place fo re_match fmt_v d) = true /\
+  forall k v, in_place_exact fo re_match fmt_v k v d ->
+  forall a, eval fo re_match k v d = Ok a -> eval fo re_match k v (in_place fo re_match fmt_v d) = Ok a.
+Proof. exact in_place_ok. Qed.
+Print Assumptions in_place_preserves.
+
+(* non-vacuity:  select int(value) + (1 + 2) as x, key where x > 2 - 1  on the pair (a, 12):
+   the field object becomes int(value) + 3, the WHERE tree (ref x) > 1 *)
+Example exec_tree_preserves_nonvacuous :
+  wt ex_where = true /\
+  reassoc_exact prim_fops re_none pf_fmt_v ex_where "a" "12" /\
+  refs_good prim_fops re_none pf_fmt_v "a" "12" (fold prim_fops re_none pf_fmt_v ex_where) /\
+  exec_tree prim_fops re_none pf_fmt_v ex_where =
+    EBin 45 OGt
+      (ERef 43 "x" (EBin 18 OAdd (ECall 7 (EName 7 "int") [EField 11 ValueKW]) (ENum 21 "3")))
+      (ENum 47 "1") /\
+  canon_res (eval prim_fops re_none "a" "12" ex_where) = Some (CBool true) /\
+  canon_res (eval prim_fops re_none "a" "12" (exec_tree prim_fops re_none pf_fmt_v ex_where)) =
+    Some (CBool true).
+Proof. exact ex_text_lemma. Qed.
